@@ -76,5 +76,40 @@ def verifyAndHash [DecidableEq S] (Y : G) (pi : Proof G S) (alpha : Msg) : Excep
     | .ok false => .error .verificationFailed
     | .ok true => .ok (P.outHash pi.gamma)
 
+/-- the values `Prove` computes on the way (what the `verif` trace hook of package vrf reports) -/
+structure PTrace (G S : Type) where
+  y : G
+  h : G
+  gamma : G
+  k : S
+  u : G
+  v : G
+  c : S
+  s : S
+
+def proveTrace (sk : Sk) (alpha : Msg) : PTrace G S :=
+  let x := P.scalarOf sk
+  let Y := P.smul x P.base
+  let H := P.h2c Y alpha
+  let Gamma := P.smul x H
+  let k := P.nonce sk H
+  let U := P.smul k P.base
+  let V := P.smul k H
+  let c := P.hashPoints H Gamma U V
+  { y := Y, h := H, gamma := Gamma, k := k, u := U, v := V, c := c, s := P.sadd k (P.smulS c x) }
+
+/-- the values the core `verify` recomputes -/
+structure VTrace (G S : Type) where
+  h : G
+  u : G
+  v : G
+  c' : S
+
+def verifyTrace (Y : G) (pi : Proof G S) (alpha : Msg) : VTrace G S :=
+  let H := P.h2c Y alpha
+  let U := sub P (P.smul pi.s P.base) (P.smul pi.c Y)
+  let V := sub P (P.smul pi.s H) (P.smul pi.c pi.gamma)
+  { h := H, u := U, v := V, c' := P.hashPoints H pi.gamma U V }
+
 end
 end GV.Model.Vrf
